@@ -3,6 +3,7 @@ open CaddyModel.C17
 #print axioms fmt_total
 #print axioms fmt_output_bound
 #print axioms fmt_ends_with_single_newline
+#print axioms fmt_empty_stays_empty
 #print axioms fmt_canonical_on_W
 #print axioms fmt_preserves_tokens_partial
 #print axioms fmt_idempotent_partial
@@ -10,3 +11,7 @@ open CaddyModel.C17
 #print axioms fmt_idempotent_full_fails
 #print axioms token_witnesses_all_fail
 #print axioms idem_witnesses_all_fail
+#print axioms repaired_token_witnesses_old_code_fails
+#print axioms repaired_token_witnesses_now_pass
+#print axioms repaired_idem_witnesses_old_code_fails
+#print axioms repaired_idem_witnesses_now_pass
